@@ -193,6 +193,24 @@ def mixed(rng, n_lps, small=True):
     return out
 
 
+def data_range(*lps):
+    """(smallest, largest) absolute value among the non-zero finite data of the problems"""
+    vals = []
+    for lp in lps:
+        vals += [c[0] for c in lp.cols] + [r[1] for r in lp.rows] + [r[2] for r in lp.rows] + [a for r in lp.rows for _, a in r[3]]
+        vals += [v for c in lp.cols for v in c[1:3] if v not in (INF, NINF)]
+    vals = [abs(F(v)) for v in vals if v != 0]
+    return (min(vals), max(vals)) if vals else (F(1), F(1))
+
+
+def wide_range(*lps):
+    """data spanning 30 or more orders of magnitude (or lying outside 10^-30 .. 10^30): the floating-point stages work with
+    absolute tolerances, so redundant rows at such different scales can look inconsistent at every precision of the ladder"""
+    lo, hi = data_range(*lps)
+    big = F(10) ** 30
+    return hi >= lo * big or hi > big or lo * big < 1
+
+
 def corpus(name):
     """minimised past failures, always replayed first: corpus/<name>/*.lp (one LP line per file)"""
     import os
